@@ -206,7 +206,8 @@ class TypeParser:
         if plain in ('std::string', 'string'):
             return ('str',)
         if plain in ('std::chrono::milliseconds', 'std::chrono::seconds', 'std::chrono::nanoseconds', 'std::chrono::microseconds',
-                     'std::chrono::system_clock::time_point', 'std::chrono::_V2::system_clock::time_point'):
+                     'std::chrono::system_clock::time_point', 'std::chrono::_V2::system_clock::time_point',
+                     'system_clock::time_point', 'milliseconds', 'seconds', 'chrono::milliseconds', 'chrono::system_clock::time_point'):
             return ('int', 64, True)
         if plain in EXTERNAL_RECORDS:
             return ('ext', EXTERNAL_RECORDS[plain])
